@@ -1,6 +1,6 @@
 (* C03 - DIDs are self-certifying: suffix = hash(suffix data), delta bound by hash. *)
 From Coq Require Import ZArith NArith String List Bool.
-From Sidetree Require Import Json.Json Json.Jcs Sidetree.Protocol Sidetree.Hashing Sidetree.Parser.
+From Sidetree Require Import Base.Sha2 Json.Json Json.Jcs Json.JcsProps Json.JcsRoundTrip Sidetree.Protocol Sidetree.Hashing Sidetree.Parser Sidetree.Binding.
 Import ListNotations.
 Open Scope string_scope.
 
@@ -20,3 +20,28 @@ Theorem C03_did_is_namespaced_suffix : forall cfg u n o t ns bytes ty sfx id ori
   parse cfg u n o t ns bytes = Some (ty, sfx, id, origin) -> id = ns ++ ":" ++ sfx.
 Proof. exact parse_reports_id. Qed.
 Print Assumptions C03_did_is_namespaced_suffix.
+
+(* "changing any part of the suffix data changes the DID or causes rejection": two accepted
+   create requests with the same suffix carry the same suffix data (as a JSON value), unless
+   their canonical bytes are an explicit SHA-2 collision (exhibited). *)
+Theorem C03_same_did_same_suffix_data : forall cfg u n o m1 b1 p1 m2 b2 p2,
+  parse_create cfg u n o m1 b1 = Some p1 -> parse_create cfg u n o m2 b2 = Some p2 -> p_suffix p1 = p_suffix p2 ->
+  exists sd1 sd2, p_suffix_data p1 = Some sd1 /\ p_suffix_data p2 = Some sd2 /\
+    (jequiv (img_suffix_data sd1) (img_suffix_data sd2) \/ exists code, collision code (img_suffix_data sd1) (img_suffix_data sd2)).
+Proof. exact same_suffix_same_suffix_data. Qed.
+Print Assumptions C03_same_did_same_suffix_data.
+
+(* ... and outside batch mode the recorded delta hash binds the delta *)
+Theorem C03_same_delta_hash_same_delta : forall cfg u n o m1 p1 sd1 m2 p2 sd2,
+  parse_create cfg u n o m1 false = Some p1 -> parse_create cfg u n o m2 false = Some p2 ->
+  p_suffix_data p1 = Some sd1 -> p_suffix_data p2 = Some sd2 -> sd_delta_hash sd1 = sd_delta_hash sd2 ->
+  jequiv (img_delta_opt (p_delta p1)) (img_delta_opt (p_delta p2)) \/
+  exists code, collision code (img_delta_opt (p_delta p1)) (img_delta_opt (p_delta p2)).
+Proof. exact same_delta_hash_same_delta. Qed.
+Print Assumptions C03_same_delta_hash_same_delta.
+
+(* equal model multihashes: equal values or a collision (the general binding lemma) *)
+Theorem C03_multihash_binds : forall v w a s, calc_mh v a = Some s -> calc_mh w a = Some s -> wfnum v -> wfnum w ->
+  jequiv v w \/ exists code, collision code v w.
+Proof. exact calc_mh_binds. Qed.
+Print Assumptions C03_multihash_binds.
